@@ -1,6 +1,7 @@
 (* C03 — Qualified names keep their URI and stay unambiguous under any namespace
    history.  Statements only; proofs are in theories/NsmProofs.v, ScopeProofs.v. *)
 From Coq Require Import String List.
+From Prov Require Import Values Record World Interp InterpProofs WInvUProofs.
 From Prov Require Import Str Sexp Tables Nsm NsmProofs Scope ScopeProofs.
 Import ListNotations.
 Open Scope string_scope.
@@ -140,3 +141,16 @@ Lemma C03c_F3_refuted :
   snd (sstep (srun (f3_ops ++ [OResolve None (NQn q)])) (OResolve None (NStr "e2")))
     = ObQn (Some (mkQn (mkNs "" "http://c/") "e2")).
 Proof. split; vm_compute; reflexivity. Qed.
+
+(* world level: in every world the interpreter can reach — through any sequence of namespace declarations,
+   record insertions by every path, update, add_bundle, flattened, unified, graph and PROV-JSON round trips —
+   the namespace manager of every document and bundle is URI-consistent (InvU: the URI index maps a URI to a
+   namespace with that URI, a renamed namespace keeps its URI).  This is the hypothesis under which
+   C03a_uri_preserved holds for one manager, established here for all of them at once. *)
+Theorem C03_reachable_managers_consistent : forall ft ops c b,
+  World.get_cont (InterpProofs.wrun ft ops) c = Some b -> InvU (World.bns b).
+Proof. exact reachable_container_InvU. Qed.
+Print Assumptions C03_reachable_managers_consistent.
+Theorem C03_step_keeps_consistency : forall w o, WInv w -> WInv (fst (Interp.step w o)).
+Proof. exact step_WInv. Qed.
+
